@@ -49,14 +49,14 @@ Qed.
 Lemma free_empty : forall s p, Inv s -> In FFree (todo s) -> pl s = PLive p -> pitems p = [] /\ pdone p = [].
 Proof.
   intros s p IV F P. destruct IV as [i_tb0 i_todo0 i_act0 i_lock0 i_pn0 i_wf0 i_wu0 i_w10 i_w1b0 i_idle0 i_w20 i_w40 i_hfx0 i_w50].
-  destruct (i_wf0 F p P) as (S0 & D0 & _). split; auto.
+  destruct (i_wf0 F p P) as (S0 & D0 & SH0). split; auto.
   destruct (pitems p) eqn:IT; auto. exfalso.
   assert (NE : pitems p <> []) by (rewrite IT; discriminate).
   destruct i_w1b0 as (B & _). destruct (B p P) as (B1 & _).
   assert (NL : nlive s = 0%nat) by lia.
   assert (TD : exists t, lock s = Some t).
   { destruct (lock s) eqn:L; eauto. rewrite (i_todo0 eq_refl) in F. destruct F. }
-  destruct (i_w40 p P NE) as [FC | (w & INW & W)].
+  destruct (i_w40 p P NE) as [FC | [(w & INW & W) | (_ & _ & _ & NS)]]; [| | congruence].
   - assert (ncreate (todo s) = 0%nat) by lia. now apply (ncreate_zero (todo s)).
   - assert (LW : is_live (wpc_of s w) = true).
     { destruct W as [AC | (PL & _)]; [| rewrite PL; reflexivity]. destruct (wpc_of s w); try discriminate; reflexivity. }
